@@ -56,6 +56,12 @@ _OK_PARAM_RE = re.compile(r"^[a-z0-9_.-]+$", re.I)
 
 _gzip_header = b"\x1f\x8b\x08\x00\x00\x00\x00\x00\x02\xff"
 
+_CTL_OR_SPACE_RE = re.compile(r"[\x00-\x20]")
+
+
+def _percent_encode_match(match):
+    return "%%%02X" % ord(match.group())
+
 _marker = object()
 
 
@@ -1359,6 +1365,12 @@ class Response:
     def _make_location_absolute(environ, value):
         if SCHEME_RE.search(value):
             return value
+
+        # urljoin() strips leading C0 control characters and spaces and
+        # removes TAB, CR and LF anywhere before it looks for a scheme or a
+        # network location. Percent-encode them, so that what is tested
+        # below is exactly what urljoin() is going to see.
+        value = _CTL_OR_SPACE_RE.sub(_percent_encode_match, value)
 
         # This is to fix an open redirect issue due to the way that
         # urlparse.urljoin works. See CVE-2024-42353 and
